@@ -23,11 +23,11 @@ package main
 import (
 	"bytes"
 	"fmt"
-	"regexp"
 	"go/ast"
 	"go/token"
 	"go/types"
 	"path/filepath"
+	"regexp"
 	"strings"
 )
 
@@ -46,19 +46,34 @@ type fieldSpec struct {
 	//               struct declared in the file that no other spec of the target matches
 	nth    int
 	object []string // non-nil: pointer to an object WITHOUT own synchronisation (exploration only); its read-only methods
+	// chanState: a channel field on which the code SENDS.  A send is a read, close() a write of the pseudo-location
+	// "<canon>.open" (whether the channel is still open), so that the lockset check demands what the lock is there for:
+	// a send never meets a close.  (Receiving from a closed channel is harmless and is not an access.)
+	chanState bool
 }
 
 type ftarget struct {
-	file     string
-	typeName string
+	file       string
+	typeName   string
 	lockSpecs  []lockSpec
 	fieldSpecs []fieldSpec
-	defName  string
-	comment  string
-	// filled in by resolve(): Go field name -> role name
-	locks   map[string]string
-	fields  map[string]string
-	objects map[string][]string
+	defName    string
+	comment    string
+	// nested: locks and fields may also sit one level down, in a struct declared in the file that a field of the target
+	// holds by value or by pointer (paths "f.g")
+	nested bool
+	// foreign: EVERY function of the file is analysed, not only the methods of the target: a variable of the target
+	// type anywhere denotes an object whose tracked fields and locks count; methods of other file-local types and
+	// functions of the file are analysed in place where they are called; entry names are qualified ("Type.Method")
+	foreign bool
+	// reentrant: acquiring a lock that is already held does not make the method Unknown; the lock is listed twice in the
+	// section's held list, for an explicit obligation on the Coq side (LocksetMore.no_reacquire)
+	reentrant bool
+	// filled in by resolve(): Go field path -> role name
+	locks     map[string]string
+	fields    map[string]string
+	objects   map[string][]string
+	chanState map[string]bool
 }
 
 type fgroup struct {
@@ -89,10 +104,35 @@ var fgroups = []fgroup{
 		comment:    "Queue: the slice of error-subscriber channels ([]chan error, role name errorSubscribers) under the Queue's\n   sync.Mutex (role name errSubScriberMux) — property C14.",
 	}, {
 		file: "workqueue/queue.go", typeName: "Queue",
-		lockSpecs: []lockSpec{{"errSubScriberMux", "Mutex", 0}},
+		lockSpecs:  []lockSpec{{"errSubScriberMux", "Mutex", 0}},
 		fieldSpecs: []fieldSpec{{canon: "breaked", typ: `^bool$`}, {canon: "workQueue", typ: `^\*workHeap$`, object: []string{"Len"}}},
-		defName:   "wq_shared_skeleton",
-		comment:   "EXPLORATION ONLY (no property depends on it): the plain bool of Queue (Break's flag) and the heap object behind\n   the *workHeap field, which has no synchronisation of its own (every method call except Len counts as a write).",
+		defName:    "wq_shared_skeleton",
+		comment:    "EXPLORATION ONLY (no property depends on it): the plain bool of Queue (Break's flag) and the heap object behind\n   the *workHeap field, which has no synchronisation of its own (every method call except Len counts as a write).",
+	}}},
+	{"PubSkeleton_gen.v", []ftarget{{
+		file: "publisher/publication.go", typeName: "Subscriber",
+		lockSpecs: []lockSpec{{"mu", "RWMutex", 0}},
+		fieldSpecs: []fieldSpec{
+			{canon: "closed", typ: `^bool$`},
+			{canon: "receiveCh", typ: `^chan [A-Z]\w*$`, chanState: true},
+			{canon: "done", typ: `^chan struct\{\}$`},
+		},
+		nested: true, foreign: true, reentrant: true,
+		defName: "subscriber_skeleton",
+		comment: "Subscriber (property C10): its sync.RWMutex (role name mu), the closed flag (its bool), receiveCh (its chan T; a send is a\n   read and close() a write of \"receiveCh.open\") and done (its chan struct{}).  EVERY function of the file is analysed: a\n   variable of type *Subscriber anywhere is an object; entries are the exported functions/methods (Type.Method), private\n   ones and methods of Publication are analysed in place; goroutines are <entry>.go<k>.  A lock acquired while it is\n   already held is listed twice in the section's held list.",
+	}, {
+		file: "publisher/publication.go", typeName: "Publication",
+		fieldSpecs: []fieldSpec{{canon: "subscribers", typ: `^\*generic\.SyncMap\[`}},
+		foreign:    true,
+		defName:    "publication_skeleton",
+		comment:    "Publication: the field holding the subscriber map (a *generic.SyncMap, which synchronises itself: calls are reads\n   of the field); there is no lock, so the field must never be written after construction.",
+	}}},
+	{"RankSkeleton_gen.v", []ftarget{{
+		file: "rankCalculation/rankCalculator.go", typeName: "RankCalculator",
+		lockSpecs:  []lockSpec{{"mux", "RWMutex", 0}},
+		fieldSpecs: []fieldSpec{{canon: "entries", typ: `^\*storage\.SafeMap\[`}},
+		defName:    "rank_skeleton",
+		comment:    "RankCalculator (X05): the field holding the *storage.SafeMap (role name entries; Reset replaces it) under the\n   calculator's sync.RWMutex (role name mux).",
 	}}},
 }
 
@@ -107,7 +147,8 @@ const (
 type fheld struct {
 	name, mode string
 	owner      *fframe
-	covered    bool // a deferred release is registered
+	covered    bool         // a deferred release is registered
+	obj        types.Object // foreign mode: the variable through which the lock was taken
 }
 
 type fsection struct {
@@ -136,11 +177,13 @@ const (
 	vField
 	vMethod
 	vAppend
+	vPrefix // a struct inside the receiver that holds locks / tracked fields (path prefix)
 )
 
 type fval struct {
 	k    vkind
 	name string
+	obj  types.Object // foreign mode: the variable of the target type the expression is rooted in
 }
 
 // spawn: a goroutine started by an analysed entry: a closure (lit) or an unexported method/function (fd); it becomes a
@@ -156,32 +199,35 @@ type spawn struct {
 // shared by all entries of one target
 type spawnSet struct {
 	list    []spawn
-	reached map[*ast.FuncDecl]bool // unexported methods/functions analysed in place or as a goroutine somewhere
+	reached map[*ast.FuncDecl]bool   // unexported methods/functions analysed in place or as a goroutine somewhere
 	funcs   map[string]*ast.FuncDecl // top-level functions of the file (no receiver) by name
 }
 
 type fan struct {
-	fc     *fileCtx
-	t      ftarget
-	lockRW map[string]bool
-	kinds  map[string]fieldKind
-	ro     map[string]map[string]bool
-	recv   map[types.Object]bool
-	st     []fheld
-	fr     *fframe
-	depth  int
-	active map[*ast.FuncDecl]bool
-	secs   []*fsection
-	cur    *fsection
-	loops  [][]fheld
-	breaks [][]fheld
-	labels map[string][]fheld
-	nlock  int // number of lock events so far
-	sp     *spawnSet
-	name   string             // name of the entry being analysed
-	nspawn int                // goroutines started by it so far
-	sites  map[ast.Node]bool  // go statements already turned into a spawn (a site inside a loop counts once)
-	sdepth int                // nesting of goroutines
+	fc      *fileCtx
+	t       ftarget
+	lockRW  map[string]bool
+	kinds   map[string]fieldKind
+	ro      map[string]map[string]bool
+	recv    map[types.Object]bool
+	st      []fheld
+	fr      *fframe
+	depth   int
+	active  map[*ast.FuncDecl]bool
+	secs    []*fsection
+	cur     *fsection
+	loops   [][]fheld
+	breaks  [][]fheld
+	labels  map[string][]fheld
+	nlock   int // number of lock events so far
+	sp      *spawnSet
+	name    string                        // name of the entry being analysed
+	nspawn  int                           // goroutines started by it so far
+	sites   map[ast.Node]bool             // go statements already turned into a spawn (a site inside a loop counts once)
+	sdepth  int                           // nesting of goroutines
+	root    map[types.Object]types.Object // foreign mode: receiver of an inlined method -> the caller's variable
+	lockObj types.Object                  // foreign mode: the variable through which the lock operation being analysed goes
+	callObj types.Object                  // foreign mode: the variable the method being inlined is called on
 }
 
 func (a *fan) fail(pos token.Pos, format string, args ...interface{}) {
@@ -231,7 +277,22 @@ func (fc *fileCtx) resolve(t *ftarget) (map[string]bool, map[string]fieldKind, e
 		return nil, nil, fmt.Errorf("struct type %s not declared", t.typeName)
 	}
 	fs := structFields(st)
+	if t.nested {
+		for _, f := range structFields(st) {
+			base, _ := baseTypeName(f.typ)
+			if inner := fc.structs[base]; inner != nil && base != t.typeName && fc.syncKind(f.typ) == "" {
+				for _, g := range structFields(inner) {
+					fs = append(fs, namedField{f.name + "." + g.name, g.typ})
+				}
+			}
+		}
+	}
+	typeOf := map[string]ast.Expr{}
+	for _, f := range fs {
+		typeOf[f.name] = f.typ
+	}
 	t.locks, t.fields, t.objects = map[string]string{}, map[string]string{}, map[string][]string{}
+	t.chanState = map[string]bool{}
 	lockRW := map[string]bool{}
 	for _, ls := range t.lockSpecs {
 		var cands []string
@@ -287,7 +348,13 @@ func (fc *fileCtx) resolve(t *ftarget) (map[string]bool, map[string]fieldKind, e
 		}
 		matched[name] = true
 		t.fields[name] = sp.canon
-		ft := structField(st, name)
+		ft := typeOf[name]
+		if sp.chanState {
+			if _, isChan := ft.(*ast.ChanType); !isChan {
+				return nil, nil, fmt.Errorf("%s.%s is not a channel", t.typeName, name)
+			}
+			t.chanState[name] = true
+		}
 		if sp.object != nil {
 			if _, ptr := ft.(*ast.StarExpr); !ptr {
 				return nil, nil, fmt.Errorf("%s.%s is declared an object but is not a pointer", t.typeName, name)
@@ -343,11 +410,15 @@ func (a *fan) heldList() [][2]string {
 }
 
 func (a *fan) access(loc string, wr bool) {
+	a.accessRole(a.t.fields[loc], wr) // role name, not the Go field name
+}
+
+func (a *fan) accessRole(role string, wr bool) {
 	if a.cur == nil {
 		a.cur = &fsection{held: a.heldList()}
 		a.secs = append(a.secs, a.cur)
 	}
-	x := access{a.t.fields[loc], wr} // role name, not the Go field name
+	x := access{role, wr}
 	for _, y := range a.cur.accs {
 		if x == y {
 			return
@@ -365,22 +436,32 @@ func (a *fan) find(name string) int {
 	return -1
 }
 
+// findLast: the innermost acquisition of the lock (a lock can be listed twice only with the option reentrant)
+func (a *fan) findLast(name string) int {
+	for i := len(a.st) - 1; i >= 0; i-- {
+		if a.st[i].name == name {
+			return i
+		}
+	}
+	return -1
+}
+
 func (a *fan) acquire(pos token.Pos, name, mode string) {
 	a.nlock++
-	if a.find(name) >= 0 {
+	if a.find(name) >= 0 && !a.t.reentrant {
 		a.fail(pos, "lock %s acquired while it is already held (not re-entrant)", name)
 	}
 	if mode == "Rd" && !a.lockRW[name] {
 		a.fail(pos, "RLock on %s, which is a sync.Mutex", name)
 	}
-	a.st = append(copyState(a.st), fheld{name: name, mode: mode, owner: a.fr})
+	a.st = append(copyState(a.st), fheld{name: name, mode: mode, owner: a.fr, obj: a.rootOf(a.lockObj)})
 	a.cur = &fsection{held: a.heldList()} // emitted even if it stays empty
 	a.secs = append(a.secs, a.cur)
 }
 
 func (a *fan) release(pos token.Pos, name, mode string) {
 	a.nlock++
-	i := a.find(name)
+	i := a.findLast(name)
 	if i < 0 || a.st[i].mode != mode {
 		a.fail(pos, "release of %s in mode %s while it is not held in that mode", name, mode)
 	}
@@ -397,7 +478,7 @@ func (a *fan) release(pos token.Pos, name, mode string) {
 
 func (a *fan) deferRelease(pos token.Pos, name, mode string) {
 	a.nlock++
-	i := a.find(name)
+	i := a.findLast(name)
 	if i < 0 || a.st[i].mode != mode || a.st[i].owner != a.fr || a.st[i].covered {
 		a.fail(pos, "deferred release of %s does not match a lock acquired in this function", name)
 	}
@@ -492,32 +573,107 @@ func (a *fan) pkgOf(e ast.Expr) (string, bool) {
 
 func (a *fan) classify(name string) fval {
 	if _, ok := a.lockRW[name]; ok {
-		return fval{vLock, name}
+		return fval{k: vLock, name: name}
 	}
 	if _, ok := a.kinds[name]; ok {
-		return fval{vField, name}
+		return fval{k: vField, name: name}
+	}
+	for l := range a.lockRW {
+		if strings.HasPrefix(l, name+".") {
+			return fval{k: vPrefix, name: name}
+		}
+	}
+	for f := range a.kinds {
+		if strings.HasPrefix(f, name+".") {
+			return fval{k: vPrefix, name: name}
+		}
 	}
 	return fval{}
+}
+
+// targetMember: the name of a field or of a method (declared in this file) of the target type
+func (a *fan) targetMember(name string) bool {
+	if st := a.fc.structs[a.t.typeName]; st != nil && structField(st, name) != nil {
+		return true
+	}
+	return a.fc.methods[a.t.typeName][name] != nil
+}
+
+// rootOf: foreign mode — the variable a receiver alias stands for
+func (a *fan) rootOf(o types.Object) types.Object {
+	for i := 0; i < 64; i++ {
+		r, ok := a.root[o]
+		if !ok || r == o {
+			return o
+		}
+		o = r
+	}
+	return o
+}
+
+// sameObject: foreign mode — a lock or tracked field is used through variable o: every lock held must have been
+// taken through the same variable (otherwise "holding a.mu while touching b.closed" would look protected)
+func (a *fan) sameObject(o types.Object, pos token.Pos) {
+	if !a.t.foreign {
+		return
+	}
+	for _, h := range a.st {
+		if h.obj != a.rootOf(o) {
+			a.fail(pos, "a lock taken through one variable of type %s is held while another one is used", a.t.typeName)
+		}
+	}
+}
+
+// resolveQuiet: like resolve, but without the same-object check (used to inspect code that is not being executed)
+func (a *fan) resolveQuiet(e ast.Expr) fval {
+	saved := a.st
+	a.st = nil
+	defer func() { a.st = saved }()
+	return a.resolve(e)
 }
 
 // resolve: what an expression denotes, WITHOUT producing events
 func (a *fan) resolve(e ast.Expr) fval {
 	switch e := unparen(e).(type) {
 	case *ast.Ident:
-		if o := a.objOf(e); o != nil && a.recv[o] {
-			return fval{vRecv, ""}
+		if o := a.objOf(e); o != nil {
+			if a.recv[o] {
+				return fval{k: vRecv, obj: o}
+			}
+			if a.t.foreign && isTargetValue(a.fc, e, a.t.typeName) {
+				return fval{k: vRecv, obj: o}
+			}
 		}
 	case *ast.SelectorExpr:
-		if a.resolve(e.X).k == vRecv {
+		xv := a.resolve(e.X)
+		if a.t.foreign && xv.k == vNone {
+			// fail closed: a value whose static type could not be determined, used with a selector that names a field or
+			// method of the target type, may well be an object of the target type
+			if tv := a.fc.info.TypeOf(e.X); tv == nil || tv == types.Typ[types.Invalid] {
+				if _, isPkg := a.pkgOf(e.X); !isPkg && a.targetMember(e.Sel.Name) {
+					a.fail(e.Pos(), "cannot determine whether the value .%s is selected from is a %s", e.Sel.Name, a.t.typeName)
+				}
+			}
+		}
+		if xv.k == vRecv || xv.k == vPrefix {
 			sel := a.fc.info.Selections[e]
 			if sel == nil {
 				a.fail(e.Pos(), "cannot resolve selector .%s on the receiver", e.Sel.Name)
 			}
 			if sel.Kind() == types.FieldVal && len(sel.Index()) == 1 {
-				return a.classify(e.Sel.Name)
+				path := e.Sel.Name
+				if xv.k == vPrefix {
+					path = xv.name + "." + path
+				}
+				v := a.classify(path)
+				v.obj = xv.obj
+				if v.k == vLock || v.k == vField {
+					a.sameObject(xv.obj, e.Pos())
+				}
+				return v
 			}
-			if sel.Kind() == types.MethodVal {
-				return fval{vMethod, e.Sel.Name}
+			if sel.Kind() == types.MethodVal && xv.k == vRecv {
+				return fval{k: vMethod, name: e.Sel.Name, obj: xv.obj}
 			}
 			a.fail(e.Pos(), "unsupported selection .%s on the receiver", e.Sel.Name)
 		}
@@ -535,7 +691,11 @@ func (a *fan) fieldRead(name string, pos token.Pos) {
 func (a *fan) useVal(v fval, pos token.Pos) {
 	switch v.k {
 	case vRecv:
-		a.fail(pos, "the receiver escapes (stored, passed on or returned)")
+		if !a.t.foreign { // in foreign mode objects of the target type are ordinary values that are passed around
+			a.fail(pos, "the receiver escapes (stored, passed on or returned)")
+		}
+	case vPrefix:
+		a.fail(pos, "the part %s of the receiver, which holds a lock or a guarded field, is copied or passed on", v.name)
 	case vLock:
 		a.fail(pos, "unrecognised use of lock %s", v.name)
 	case vMethod:
@@ -583,6 +743,20 @@ func (a *fan) rooted(e ast.Expr) bool {
 }
 
 func (a *fan) closureNoRecv(fl *ast.FuncLit) {
+	if a.t.foreign {
+		// a function literal that is neither started by go/defer nor called on the spot runs at a time the analysis
+		// does not know: it must not touch a lock or a tracked field of an object of the target type (calling its
+		// methods is fine: a private method reached in no other way keeps an entry of its own)
+		ast.Inspect(fl.Body, func(n ast.Node) bool {
+			if se, ok := n.(*ast.SelectorExpr); ok {
+				if v := a.resolveQuiet(se); v.k == vLock || v.k == vField {
+					a.fail(se.Pos(), "a function literal that is not started by go/defer touches %s of a %s", v.name, a.t.typeName)
+				}
+			}
+			return true
+		})
+		return
+	}
 	ast.Inspect(fl, func(n ast.Node) bool {
 		if id, ok := n.(*ast.Ident); ok {
 			if o := a.objOf(id); o != nil && a.recv[o] {
@@ -610,7 +784,7 @@ func (a *fan) expr(e ast.Expr) fval {
 		if v := a.resolve(e); v.k != vNone {
 			return v
 		}
-		if a.resolve(e.X).k == vRecv {
+		if k := a.resolve(e.X).k; k == vRecv || k == vPrefix {
 			return fval{} // a field of the receiver that is neither lock nor tracked: ignored
 		}
 		xv := a.expr(e.X)
@@ -728,14 +902,20 @@ func (a *fan) call(c *ast.CallExpr) fval {
 							a.use(arg)
 						}
 					}
+					a.callObj = a.resolve(c.Args[ri]).obj
 					a.spliceFunc(fd, ri, c.Pos())
+					return fval{}
+				}
+				if a.t.foreign { // it may reach objects of the target type in other ways: analysed in place
+					a.useArgs(c.Args)
+					a.inlineForeign(fd, c.Pos())
 					return fval{}
 				}
 			}
 		}
 		if o := a.objOf(f); o == nil {
 			switch f.Name { // type checking of the single file may not resolve everything
-			case "len", "cap", "append", "copy", "delete", "clear", "make", "new":
+			case "len", "cap", "append", "copy", "delete", "clear", "make", "new", "close":
 				return a.builtin(f.Name, c)
 			}
 		}
@@ -774,9 +954,11 @@ func (a *fan) call(c *ast.CallExpr) fval {
 				a.fail(c.Pos(), "method %s.%s is not declared in this file", a.t.typeName, f.Sel.Name)
 			}
 			a.useArgs(c.Args)
+			a.callObj = xv.obj
 			a.splice(fd, c.Pos())
 			return fval{}
 		case vLock:
+			a.lockObj = xv.obj
 			a.lockOp(c.Pos(), xv.name, f.Sel.Name, len(c.Args))
 			return fval{}
 		case vField: // recv.F.M(args): the callee synchronises itself (cell) / is an unsynchronised object
@@ -795,9 +977,20 @@ func (a *fan) call(c *ast.CallExpr) fval {
 			return fval{}
 		case vMethod, vAppend:
 			a.useVal(xv, c.Pos())
+		case vPrefix:
+			a.fail(c.Pos(), "method call on %s, which holds a lock or a guarded field", xv.name)
 		}
 		a.use(f.X)
 		a.useArgs(c.Args)
+		if a.t.foreign {
+			// a method of ANOTHER type of this file (p.unsubscribe(id), s.publisher.unsubscribe(id)): analysed in place,
+			// it may reach objects of the target type
+			if tn := a.localTypeOf(f.X); tn != "" && tn != a.t.typeName {
+				if fd := a.fc.methods[tn][f.Sel.Name]; fd != nil {
+					a.inlineForeign(fd, c.Pos())
+				}
+			}
+		}
 		return fval{}
 	case *ast.FuncLit:
 		a.closureNoRecv(f)
@@ -850,7 +1043,7 @@ func (a *fan) builtin(name string, c *ast.CallExpr) fval {
 			if ok0 {
 				a.access(f0, false)
 				a.access(f0, true) // may write into the shared backing array
-				return fval{vAppend, f0}
+				return fval{k: vAppend, name: f0}
 			}
 			return fval{}
 		}
@@ -875,6 +1068,14 @@ func (a *fan) builtin(name string, c *ast.CallExpr) fval {
 	case "make", "new":
 		if len(args) >= 1 {
 			a.useArgs(args[1:])
+			return fval{}
+		}
+	case "close":
+		if len(args) == 1 {
+			a.use(args[0])
+			if v := a.resolve(args[0]); v.k == vField && a.t.chanState[v.name] {
+				a.accessRole(a.t.fields[v.name]+".open", true) // close ends the channel's open state
+			}
 			return fval{}
 		}
 	}
@@ -919,12 +1120,48 @@ func (a *fan) inline(fd *ast.FuncDecl, rid *ast.Ident) {
 	a.depth++
 	if rid != nil {
 		a.bindRecv(rid)
+		if o := a.fc.info.Defs[rid]; o != nil && a.callObj != nil {
+			a.root[o] = a.rootOf(a.callObj) // foreign mode: the callee's receiver IS the caller's variable
+		}
 	}
+	a.callObj = nil
 	a.block(fd.Body.List)
 	a.endFrame(fd.Body.Rbrace)
 	a.depth--
 	delete(a.active, fd)
 	a.fr, a.loops, a.breaks, a.labels = saveFr, saveLoops, saveBreaks, saveLabels
+}
+
+// inlineForeign: foreign mode — a function of the file, or a method of another type of the file, is analysed in place
+// without a receiver binding (objects of the target type are recognised by their type)
+func (a *fan) inlineForeign(fd *ast.FuncDecl, pos token.Pos) {
+	if a.depth >= maxDepth {
+		a.fail(pos, "call depth limit %d exceeded", maxDepth)
+	}
+	if a.active[fd] {
+		a.fail(pos, "recursive call cycle through %s", fd.Name.Name)
+	}
+	if fd.Body == nil {
+		a.fail(pos, "function %s has no body", fd.Name.Name)
+	}
+	a.callObj = nil
+	a.inline(fd, nil)
+}
+
+// localTypeOf: name of the (pointer to a) named type of e if it has methods declared in this file
+func (a *fan) localTypeOf(e ast.Expr) string {
+	t := a.fc.info.TypeOf(e)
+	if t == nil {
+		return ""
+	}
+	t = types.Unalias(t)
+	if p, ok := t.(*types.Pointer); ok {
+		t = types.Unalias(p.Elem())
+	}
+	if n, ok := t.(*types.Named); ok && n.Obj() != nil && a.fc.methods[n.Obj().Name()] != nil {
+		return n.Obj().Name()
+	}
+	return ""
 }
 
 // spliceFunc: a top-level function of the file is called with the receiver as its ri-th argument
@@ -1074,8 +1311,10 @@ func (a *fan) lhsPre(l ast.Expr) string {
 			a.fail(l.Pos(), "assignment to lock %s", v.name)
 		case vMethod:
 			a.fail(l.Pos(), "assignment to a method")
+		case vPrefix:
+			a.fail(l.Pos(), "assignment to %s, which holds a lock or a guarded field", v.name)
 		}
-		if a.resolve(l.X).k == vRecv {
+		if k := a.resolve(l.X).k; k == vRecv || k == vPrefix {
 			return "" // an untracked field of the receiver
 		}
 		// recv.F.x = v : writes into what F points to
@@ -1183,6 +1422,9 @@ func (a *fan) stmt(s ast.Stmt) flow {
 	case *ast.SendStmt:
 		a.use(s.Chan)
 		a.use(s.Value)
+		if v := a.resolve(s.Chan); v.k == vField && a.t.chanState[v.name] {
+			a.accessRole(a.t.fields[v.name]+".open", false) // a send needs the channel to be open
+		}
 		return flowNext
 	case *ast.BlockStmt:
 		return a.block(s.List)
@@ -1296,6 +1538,7 @@ func (a *fan) deferStmt(s *ast.DeferStmt) {
 	if sel, ok := fun.(*ast.SelectorExpr); ok {
 		switch v := a.resolve(sel.X); v.k {
 		case vLock:
+			a.lockObj = v.obj
 			if len(s.Call.Args) == 0 && sel.Sel.Name == "Unlock" {
 				a.deferRelease(s.Pos(), v.name, "Wr")
 				return
@@ -1382,7 +1625,8 @@ func newFan(fc *fileCtx, t ftarget, lockRW map[string]bool, kinds map[string]fie
 		}
 	}
 	return &fan{fc: fc, t: t, lockRW: lockRW, kinds: kinds, ro: ro, recv: map[types.Object]bool{},
-		active: map[*ast.FuncDecl]bool{}, labels: map[string][]fheld{}, sp: sp, name: name, sites: map[ast.Node]bool{}}
+		active: map[*ast.FuncDecl]bool{}, labels: map[string][]fheld{}, sp: sp, name: name, sites: map[ast.Node]bool{},
+		root: map[types.Object]types.Object{}}
 }
 
 func catch(fc *fileCtx, e *fentry) {
@@ -1533,6 +1777,38 @@ func analyseFieldTarget(fc *fileCtx, t ftarget) []fentry {
 			sp.funcs[fd.Name.Name] = fd
 		}
 	}
+	name := func(fd *ast.FuncDecl) string { return fd.Name.Name }
+	if t.foreign {
+		// every function of the file is an entry (exported) or analysed in place (unexported); methods are named Type.Method
+		cands, others = nil, nil
+		for _, d := range fc.file.Decls {
+			fd, ok := d.(*ast.FuncDecl)
+			if !ok {
+				continue
+			}
+			c := cand{fd: fd}
+			if fd.Recv != nil && len(fd.Recv.List) == 1 {
+				base, ptr := baseTypeName(fd.Recv.List[0].Type)
+				if base == t.typeName {
+					if !ptr {
+						c.bad = "value receiver (copies the struct)"
+					}
+					if len(fd.Recv.List[0].Names) == 1 {
+						c.recv = fd.Recv.List[0].Names[0]
+					}
+				}
+			}
+			cands = append(cands, c)
+		}
+		name = func(fd *ast.FuncDecl) string {
+			if fd.Recv != nil && len(fd.Recv.List) == 1 {
+				if base, _ := baseTypeName(fd.Recv.List[0].Type); base != "" {
+					return base + "." + fd.Name.Name
+				}
+			}
+			return fd.Name.Name
+		}
+	}
 	var out []fentry
 	drain := func() { // goroutines started by what was analysed so far (they may start further ones)
 		for len(sp.list) > 0 {
@@ -1552,12 +1828,12 @@ func analyseFieldTarget(fc *fileCtx, t ftarget) []fentry {
 			}
 			switch {
 			case verr != nil:
-				out = append(out, fentry{name: c.fd.Name.Name, unknown: true, reason: verr.Error()})
+				out = append(out, fentry{name: name(c.fd), unknown: true, reason: verr.Error()})
 			case c.bad != "":
-				out = append(out, fentry{name: c.fd.Name.Name, unknown: true,
+				out = append(out, fentry{name: name(c.fd), unknown: true,
 					reason: fmt.Sprintf("%s: %s", fc.fset.Position(c.fd.Pos()), c.bad)})
 			default:
-				out = append(out, analyseBody(fc, t, lockRW, kinds, sp, c.fd.Name.Name, c.fd, c.recv, nil, nil, 0))
+				out = append(out, analyseBody(fc, t, lockRW, kinds, sp, name(c.fd), c.fd, c.recv, nil, nil, 0))
 				drain()
 			}
 		}
@@ -1626,7 +1902,11 @@ func generateGroup(repo string, g fgroup) ([]byte, []string, []string, error) {
 	buf.WriteString("From Coq Require Import List String.\nFrom TC.Lib Require Import Conc.\nImport ListNotations.\nLocal Open Scope string_scope.\n")
 	var summary, reasons []string
 	for _, t := range g.targets {
-		fc, err := loadFile(filepath.Join(repo, filepath.FromSlash(t.file)))
+		mod := ""
+		if t.foreign {
+			mod = repo // objects of the target type may come out of containers of other packages of the module
+		}
+		fc, err := loadFileIn(filepath.Join(repo, filepath.FromSlash(t.file)), mod)
 		if err != nil {
 			return nil, nil, nil, err
 		}
